@@ -306,6 +306,146 @@ def corpus_jobs():
     return out
 
 
+# ---- every public element class (the exported zoo, outside the parse model): packrat vs no memoization ---------------
+STATEFUL_ACTIONS = {"copy_token_to_repeater", "count_field_parse_action", "must_match_these_tokens"}
+
+
+def zoo_stateful(pp, expr):
+    """helpers whose parse actions carry state between elements (match_previous_*, counted_array): outside the
+    quantifier ('parse actions free of side effects')"""
+    seen, todo = set(), [expr]
+    while todo:
+        e = todo.pop()
+        if id(e) in seen:
+            continue
+        seen.add(id(e))
+        if any(getattr(f, "__name__", "") in STATEFUL_ACTIONS for f in e.parseAction):
+            return True
+        todo.extend(corr_parse._children(pp, e))
+    return False
+
+
+def zoo_packrat_job(seed):
+    from . import c06
+    from .. import zoo
+    pp = common.import_pyparsing()
+    import warnings
+    warnings.simplefilter("ignore")
+    try:
+        expr, desc = c06.zoo_build(pp, seed)
+        if not isinstance(expr, pp.ParserElement):
+            return 0, [], 0
+        expr.streamline()
+        if corr_parse.nullable_rep(pp, expr) or c06.cdt_spread(pp, expr) or zoo_stateful(pp, expr):
+            return 0, [], 0
+    except Exception:
+        return 0, [], 0
+    rng = random.Random(f"{seed}-pk-inputs")
+    n, bad, fails = 0, [], 0
+    entries = [("parse", ()), ("parseAll", ()), ("scan", (100, False, False))]
+    for s in rng.sample(zoo.INPUTS, 5):
+        for entry, opts in entries:
+            base = None
+            for mode in [("none",), ("packrat", 128), ("packrat", None)]:
+                try:
+                    fresh, _ = c06.zoo_build(pp, seed)      # a fresh object per call: nothing carried over between modes
+                except Exception:
+                    break
+                corr_parse.set_mode(pp, mode)
+                try:
+                    o = common.with_alarm_retry(corr_parse.CASE_TIMEOUT, full_outcome, pp, fresh, entry, s, opts, False)
+                except common.CaseTimeout:
+                    o = ["hang"]
+                finally:
+                    pp.ParserElement.disable_memoization()
+                n += 1
+                if mode == ("none",):
+                    base = o
+                    if o[0] in ("hang", "internal"):
+                        break
+                elif o != base and o != ["hang"]:
+                    bad.append({"prog": [["zoo", seed, desc, str(expr)[:100]]], "root": "zoo", "zoo_seed": seed, "input": s, "entry": entry,
+                                "opts": list(opts), "mode": list(mode), "expected": base, "actual": o})
+                    break
+    return n, bad, fails
+
+
+def probe_after_real_jobs(ctx, n):
+    """one element object whose parse action / condition (run only in a real parse) rejects the match, first parsed for
+    real and then probed WITHOUT actions at the same location (stop_on sentinel, NotAny, FollowedBy, SkipTo target, Or's
+    trial pass): the real parse's verdict must not be served for the probe, nor the other way round"""
+    jobs = []
+    for i in range(n):
+        r = random.Random(f"C02-{ctx.seed}-par-{i}")
+        prog = [["n", "Word", "01"], ["w", "Word", "ab"], ["X", "copy", r.choice(["n", "w"])]]
+        if r.random() < 0.6:
+            prog.append(["_", "condition", "X", False])
+        else:
+            prog.append(["_", "action", "X", r.choice([["failP"], ["const", "K"], ["drop"]])])
+        shape = r.choice(["stop", "stop", "notany", "followed", "skipto", "or"])
+        any_ = ["a", "|", "n", "w"]
+        prog.append(any_)
+        if shape == "stop":
+            prog += [["z", "ZeroOrMore", "a", "X"], ["g", "Group", "z"], ["root", "|", "X", "g"]]
+        elif shape == "notany":
+            prog += [["f", "~", "X"], ["s", "+", "f", "a"], ["root", "|", "X", "s"]]
+        elif shape == "followed":
+            prog += [["f", "FollowedBy", "X"], ["s", "+", "f", "a"], ["root", "|", "X", "s"]]
+        elif shape == "skipto":
+            prog += [["k", "SkipTo", "X", {"include": r.random() < 0.5, "fail_on": None, "ignore": None}], ["root", "|", "X", "k"]]
+        else:
+            prog += [["s", "+", "a", "a"], ["o", "^", "X", "s"], ["root", "|", "X", "o"]]
+        if r.random() < 0.4:
+            prog.append(["rr", "OneOrMore", "root"])
+            root = "rr"
+        else:
+            root = "root"
+        jobs.append(dict(prog=prog, root=root, inputs=["42 7", "01 10", "ab 01", "a b", "7", "ab", "0 a 1 b", " 1"]))
+    return jobs
+
+
+def indented_job(seed):
+    """IndentedBlock builds its working sub-expressions afresh inside every parseImpl call (and drops them on return):
+    element objects that come and go while one cache is live"""
+    pp = common.import_pyparsing()
+    r = random.Random(seed)
+    stmt_kind = r.choice(["words", "alt", "seq"])
+    rec, grp = r.random() < 0.7, r.random() < 0.6
+
+    def mk():
+        stmt = {"words": lambda: pp.Word(pp.alphas)[1, ...], "alt": lambda: pp.Word(pp.alphas) | pp.Word(pp.nums),
+                "seq": lambda: pp.Word(pp.alphas) + pp.Opt(pp.Literal(":"))}[stmt_kind]()
+        return pp.IndentedBlock(stmt, recursive=rec, grouped=grp)
+    n, bad = 0, []
+    for k in range(6):
+        lines, indent = [], r.choice([0, 1, 2])
+        for _ in range(r.randint(1, 6)):
+            indent = max(0, indent + r.choice([-2, -1, 0, 0, 1, 2]))
+            lines.append(" " * indent + r.choice(["a", "b", "12", "x y", "c:", "7"]))
+        s = "\n".join(lines) + r.choice(["", "\n"])
+        for entry, opts in [("parse", ()), ("parseAll", ()), ("scan", (100, False, False))]:
+            base = None
+            for mode in [("none",), ("packrat", 128), ("packrat", None)]:
+                g = mk()
+                corr_parse.set_mode(pp, mode)
+                try:
+                    o = common.with_alarm_retry(corr_parse.CASE_TIMEOUT, full_outcome, pp, g, entry, s, opts, False)
+                except common.CaseTimeout:
+                    o = ["hang"]
+                finally:
+                    pp.ParserElement.disable_memoization()
+                n += 1
+                if mode == ("none",):
+                    base = o
+                    if o[0] in ("hang", "internal"):
+                        break
+                elif o != base and o != ["hang"]:
+                    bad.append({"prog": [["IndentedBlock", stmt_kind, rec, grp]], "root": "indented", "indented_seed": seed, "input": s,
+                                "entry": entry, "opts": list(opts), "mode": list(mode), "expected": base, "actual": o})
+                    break
+    return n, bad, 0
+
+
 def run_oracle(ctx, stream, jobs, job_fn=None, what="packrat changes an outcome",
                theorem="PP.Parse.packrat_transparent / message+aliasing oracle"):
     res = common.pmap(job_fn or oracle_job, jobs)
@@ -319,6 +459,20 @@ def run_oracle(ctx, stream, jobs, job_fn=None, what="packrat changes an outcome"
         ctx.fail_input(what, {k: m[k] for k in ("prog", "root", "input", "entry", "opts", "mutate", "mode", "history") if k in m},
                        m["expected"], m["actual"], theorem=theorem,
                        how="build prog with harness.gram.build, enable_packrat(mode[1]) vs disable_memoization()")
+    return bad
+
+
+def run_zoo(ctx, zseeds):
+    res = common.pmap(zoo_packrat_job, zseeds)
+    n = sum(r[0] for r in res)
+    bad = [m for r in res for m in r[1]]
+    ctx.count_cases("oracle:zoo-packrat", n, distinct_keys=zseeds[: max(1, n)], outcomes={"calls": n, "mismatch": len(bad)},
+                    samples=[{"zoo_seed": zseeds[0]}] if zseeds else [])
+    for m in bad[:3]:
+        ctx.fail_input("packrat changes an outcome (element classes outside the parse model)",
+                       {k: m[k] for k in ("prog", "root", "zoo_seed", "input", "entry", "opts", "mode")}, m["expected"], m["actual"],
+                       theorem="C02 statement (oracle only: the exported zoo is outside PP.Parse.packrat_transparent)",
+                       how="harness.props.c02.zoo_packrat_job(zoo_seed)")
     return bad
 
 
@@ -356,6 +510,17 @@ def run(ctx):
     # the memo-aliasing templates of C03 (names through a shared entry, messages rewritten by set_name'd wrappers /
     # MatchFirst, trial parses observed by a call_during_try condition) are hazards of the packrat cache as well
     run_oracle(ctx, "oracle:aliasing-templates", c03.template_jobs(ctx, ctx.budget(450, 4500) * mult))
+    zseeds = [f"C02-{ctx.seed}-zoo-{i}" for i in range(ctx.budget(1200, 12000) * mult)]
+    run_zoo(ctx, zseeds)
+    run_oracle(ctx, "oracle:probe-after-real", probe_after_real_jobs(ctx, ctx.budget(300, 3000) * mult))
+    iseeds = [f"C02-{ctx.seed}-ind-{i}" for i in range(ctx.budget(150, 1500) * mult)]
+    res = common.pmap(indented_job, iseeds)
+    badi = [m for r_ in res for m in r_[1]]
+    ctx.count_cases("oracle:indented-block", sum(r_[0] for r_ in res), outcomes={"mismatch": len(badi)}, samples=[{"indented_seed": iseeds[0]}])
+    for m in badi[:2]:
+        ctx.fail_input("packrat changes an outcome (IndentedBlock: elements created during the parse)",
+                       {k: m[k] for k in ("prog", "root", "indented_seed", "input", "entry", "opts", "mode")}, m["expected"], m["actual"],
+                       theorem="C02 statement (oracle only)", how="harness.props.c02.indented_job(indented_seed)")
     run_oracle(ctx, "oracle:trial-vs-real-key", trykey_jobs(ctx, ctx.budget(300, 3000) * mult))
     run_oracle(ctx, "oracle:preparse-key", prekey_jobs(ctx, ctx.budget(300, 3000) * mult))
     run_oracle(ctx, "oracle:stale-cache-history", stale_jobs(ctx, ctx.budget(60, 600) * mult), job_fn=stale_job)
@@ -368,6 +533,10 @@ def run(ctx):
 def replay(data):
     if data.get("replay_kind") == "failing-input":
         c = data["case"]
+        if c.get("indented_seed"):
+            return bool(indented_job(c["indented_seed"])[1])
+        if c.get("zoo_seed"):
+            return bool(zoo_packrat_job(c["zoo_seed"])[1])
         if c.get("history"):
             return bool(stale_job(dict(prog=c["prog"], root=c["root"], inputs=[c["input"]], leaf=c["history"]["leaf"], entry=c["entry"]))[1])
         n, bad, _ = oracle_job(dict(prog=c["prog"], root=c["root"], inputs=[c["input"]]))
